@@ -146,6 +146,13 @@ def check(run, db, tier):
     run.check(_eq(J0, want), 'C20.rotation', fi.qual, 'mawet-eq7', 'vortex retarder == sin(d/2)[[c,s],[s,-c]] - i cos(d/2) I (Mawet 2009 eq 7)',
               'vortex retarder (rotate=0) = %s, expected %s' % (_txt(J0), _txt(want)), fi.loc())
 
+    # rotating the plate is conjugation with the rotation matrix, for every charge
+    cr_, sr_ = _rat(R.trig('cos', R.atom('rotate'))), _rat(R.trig('sin', R.atom('rotate')))
+    Rrot, Rrotm = [[cr_, sr_], [-sr_, cr_]], [[cr_, -sr_], [sr_, cr_]]
+    wantrot = _mm(_mm(Rrotm, J0), Rrot)
+    run.check(_eq(J, wantrot), 'C20.rotation', fi.qual, 'vortex rotation', 'vector_vortex_retarder(rotate) == R(-rotate) V(rotate=0) R(rotate) for every charge',
+              'the rotated vortex retarder is not the conjugation of the unrotated one with the rotation matrix (folding the rotation into the azimuth is only right for charge 2)', fi.loc())
+
     # Pauli
     fp = db.func(M + 'pauli_spin_matrix')
     sig = []
@@ -212,6 +219,14 @@ def check(run, db, tier):
         if not muts:
             run.ok('C20.pure', fi.qual, 'no in-place write through an argument')
 
+    from .purity import module_global_mutations
+    gm = module_global_mutations(db, 'prysm.x.polarization')
+    for fi_, st, nm, r in gm:
+        run.finding('C20.pure', fi_.qual, norm_stmt(st), '`%s` writes in place through `%s`, which may alias the module-level constant %s: the constant changes with every call, so the second and later '
+                    'results differ from the first (e.g. a Mueller matrix scaled down once more per call)' % (norm_stmt(st), nm, r), fi_.loc(st))
+    if not gm:
+        run.ok('C20.pure', 'prysm.x.polarization', 'module-level constants are never written in place')
+
     # adapter
     fa = db.func(M + 'jones_adapter')
     lam = ast.parse('lambda E: E', mode='eval').body
@@ -228,5 +243,26 @@ def check(run, db, tier):
     ok = isinstance(out, Arr) and out.shape == (1, 2, 2) and out.data == W.data
     run.check(ok, 'C20.adapter', fa.qual, 'component map', 'adapter(identity)(W)[..., i, j] == W[..., i, j] for the 4 components',
               'adapter permutes/loses components: %s' % (show(dom, out) if isinstance(out, Arr) else repr(out)), fa.loc())
+    # spatial axes: every propagated component keeps its orientation inside the (..., 2, 2) result
+    from ..domains.shape import ShapeDomain, Sh, Scalar
+    from ..core.interp import Interp as _Interp
+    sdom = ShapeDomain({})
+    sit = _Interp(db, sdom)
+    lam2 = ast.parse('lambda E: P', mode='eval').body
+
+    def sargs():
+        return [LambdaRef(lam2, Frame(fa, fa.module, {'P': Sh(('T0', 'T1'))}))]
+    sps = [p for p in sit.run(fa, args=sargs) if p.outcome == 'return']
+    if not sps:
+        raise AnalysisError('jones_adapter: no returning path in the shape run')
+    sit._reset_run([])
+    sout = sit.call_value(sps[0].value, [Sh(('S0', 'S1', 2, 2))], {}, fa.node, None)
+    sev = list(sit.events)
+    bad = [e for e in sev if e['kind'] in ('reshape-reorders', 'broadcast-error', 'index-error') or (e['kind'] == 'store' and e.get('ok') is False)]
+    nst = [e for e in sev if e['kind'] == 'store']
+    oks = isinstance(sout, Sh) and sout.dims == ('T0', 'T1', 2, 2) and not bad
+    run.check(oks, 'C20.adapter', fa.qual, 'spatial axes', 'a (S0, S1, 2, 2) field whose components propagate to (T0, T1) comes back as (T0, T1, 2, 2) with no axis exchanged',
+              'the adapter returns %r%s: the spatial axes of the propagated components are exchanged / re-flowed (invisible for transposition-symmetric fields on square grids)'
+              % (sout, '; ' + bad[0]['kind'] + ' %s -> %s' % (bad[0].get('old'), bad[0].get('new')) if bad else ''), fa.loc())
     run.require_instances('C20.unitary', 5)
     run.require_instances('C20.mueller', 2)
